@@ -636,8 +636,13 @@ class NUMERIC(FieldType):
         signed = self.signed
 
         # Calculate the minimum and maximum possible values for error checking
+        max_sortable = 2 ** bits - 1
+        if numtype is float and not signed:
+            # The sortable form of a non-negative float is its bit pattern,
+            # which never has the high (sign) bit set
+            max_sortable = 2 ** (bits - 1) - 1
         min_value = from_sortable(numtype, bits, signed, 0)
-        max_value = from_sortable(numtype, bits, signed, 2 ** bits - 1)
+        max_value = from_sortable(numtype, bits, signed, max_sortable)
 
         return min_value, max_value
 
